@@ -234,10 +234,10 @@ type cliPC struct {
 	recv     chan []byte
 	closed   chan struct{}
 	once     sync.Once
-	sent     int                     // packets handed to WriteTo so far
-	onSend   func(pc *cliPC, n int)  // called with mu held before packet number n (1-based) is written
-	pick     func(n int, k int) int  // which of the k live carriers takes packet n
-	foreign  func(p []byte) bool     // optional: reports a downstream packet that cannot belong to this session
+	sent     int                    // packets handed to WriteTo so far
+	onSend   func(pc *cliPC, n int) // called with mu held before packet number n (1-based) is written
+	pick     func(n int, k int) int // which of the k live carriers takes packet n
+	foreign  func(p []byte) bool    // optional: reports a downstream packet that cannot belong to this session
 }
 
 func newCliPC() *cliPC {
@@ -339,7 +339,9 @@ type schedule struct {
 	run func(s *t2server, pc *cliPC, prefix []byte, ip1, ip2 string) (wantIP string, err error)
 }
 
-func mustDial(s *t2server, ip string, prefix []byte) (*carrier, error) { return s.dialCarrier(ip, prefix) }
+func mustDial(s *t2server, ip string, prefix []byte) (*carrier, error) {
+	return s.dialCarrier(ip, prefix)
+}
 
 func schedules() []schedule {
 	seqCut := func(k int) schedule {
@@ -489,6 +491,11 @@ func openClientStack(pc net.PacketConn) (*kcp.UDPSession, *smux.Session, error) 
 
 // runSession drives one client session (one ClientID) through a schedule and checks the echo.
 func runSession(s *t2server, sc schedule, tag [8]byte, size int, ip1, ip2 string) *sessResult {
+	return runSessionAt(s, sc, tag, size, ip1, ip2, nil, nil)
+}
+
+// runSessionAt: ready is signalled once the carriers are up; the client stack starts when start is closed.
+func runSessionAt(s *t2server, sc schedule, tag [8]byte, size int, ip1, ip2 string, ready *sync.WaitGroup, start <-chan struct{}) *sessResult {
 	res := &sessResult{tag: tag, payload: payloadFor(tag, size)}
 	var id turbotunnel.ClientID
 	copy(id[:], tag[:])
@@ -498,6 +505,12 @@ func runSession(s *t2server, sc schedule, tag [8]byte, size int, ip1, ip2 string
 	pc.mu.Lock()
 	want, err := sc.run(s, pc, prefix, ip1, ip2)
 	pc.mu.Unlock()
+	if ready != nil {
+		ready.Done()
+	}
+	if start != nil {
+		<-start
+	}
 	if err != nil {
 		res.infraErr = err
 		return res
@@ -573,7 +586,13 @@ func judgeAccepted(r *en.R, s *t2server, sessions []*sessResult, desc interface{
 			r.Fail("accept:not-exactly-one", fmt.Sprintf("session %x surfaced as %d accepted connections", tag, len(l)), desc)
 		}
 		for _, a := range l {
-			if !bytes.Equal(a.recv, x.payload) {
+			complete := x.infraErr == nil && !x.timedOut && x.failSig == ""
+			if !complete {
+				// the client did not see the whole echo: the bridge may have read only part, never other bytes
+				if !bytes.HasPrefix(x.payload, a.recv) {
+					r.Fail("accept:wrong-bytes", fmt.Sprintf("the bridge read %d bytes for session %x that are not a prefix of what the client wrote", len(a.recv), tag), desc)
+				}
+			} else if !bytes.Equal(a.recv, x.payload) {
 				d := 0
 				for d < len(a.recv) && d < len(x.payload) && a.recv[d] == x.payload[d] {
 					d++
@@ -829,6 +848,95 @@ func TestVerifEnumC05T2(t *testing.T) {
 		judgeAccepted(r, s, sessions, sc.name)
 		s.ln.Close()
 	}
+	// C. bursts -----------------------------------------------------------------------------------
+	// Many sessions whose first packets reach the listener at (nearly) the same moment: the accept
+	// path then has several new KCP sessions pending at once.  Real time decides how close they
+	// land, so this section is a systematic stress, not an enumeration; its oracles are the same
+	// byte-and-count comparisons.
+	burstK, burstRounds := 8, 6
+	if thorough {
+		burstRounds = 40
+	}
+	r.Begin("bursts", fmt.Sprintf("%d rounds (all shards together) of %d sessions with distinct ClientIDs whose carriers are set up first and whose client stacks are then released together, so that their first packets arrive together; same oracle as the sessions section", burstRounds, burstK))
+	for round := 0; round < burstRounds; round++ {
+		if !r.Mine() {
+			continue
+		}
+		if r.TimeUp() {
+			break
+		}
+		r.Case(fmt.Sprintf("burst|%d", round), true)
+		runBurst := func() (infra error, timeouts int, fails []*sessResult, s *t2server, sessions []*sessResult) {
+			s, err := startT2Server()
+			if err != nil {
+				return err, 0, nil, nil, nil
+			}
+			var ready, wg sync.WaitGroup
+			start := make(chan struct{})
+			sessions = make([]*sessResult, burstK)
+			for k := 0; k < burstK; k++ {
+				k := k
+				tag := nextTag()
+				ready.Add(1)
+				wg.Add(1)
+				go func() {
+					defer wg.Done()
+					sessions[k] = runSessionAt(s, scs[0], tag, 500, fmt.Sprintf("10.9.%d.%d", round%250, k+1), "", &ready, start)
+				}()
+			}
+			ready.Wait()
+			close(start)
+			wg.Wait()
+			for _, x := range sessions {
+				switch {
+				case x.infraErr != nil:
+					infra = x.infraErr
+				case x.timedOut:
+					timeouts++
+				case x.failSig != "":
+					fails = append(fails, x)
+				}
+			}
+			return
+		}
+		desc := fmt.Sprintf("burst round %d of %d simultaneous sessions", round, burstK)
+		infra, timeouts, fails, s, sessions := runBurst()
+		if s == nil {
+			r.Incomplete("cannot start the server on a loopback port: " + infra.Error())
+			break
+		}
+		if timeouts > 0 {
+			// what the bridge side saw is judged at once (bytes and counts); the missing progress itself
+			// is believed only if it repeats
+			judgeAccepted(r, s, sessions, desc)
+			s.ln.Close()
+			rep := 0
+			for i := 0; i < 3; i++ {
+				_, to, _, s2, _ := runBurst()
+				if s2 != nil {
+					s2.ln.Close()
+				}
+				if to > 0 {
+					rep++
+				}
+			}
+			if rep == 3 {
+				r.Fail("session:no-progress", fmt.Sprintf("in every one of 4 bursts of %d simultaneous sessions some session did not complete within %v", burstK, liveWait), desc)
+			}
+			continue
+		}
+		if infra != nil {
+			r.Incomplete("loopback trouble: " + infra.Error())
+			s.ln.Close()
+			continue
+		}
+		for _, f := range fails {
+			r.Fail(f.failSig, f.failMsg, desc)
+		}
+		judgeAccepted(r, s, sessions, desc)
+		s.ln.Close()
+	}
+
 	names := make([]string, 0, len(scs))
 	for _, s := range scs {
 		names = append(names, s.name)
